@@ -458,6 +458,18 @@ func Alive(group string) int {
 	return n
 }
 
+// AliveNamed reports how many threads of a group with the given spawn-site name
+// are not done.
+func AliveNamed(group, name string) int {
+	n := 0
+	for _, t := range threads {
+		if t.Group == group && t.Name == name && t.st != done {
+			n++
+		}
+	}
+	return n
+}
+
 // ---- virtual channels keyed by channel identity ----
 type vchan struct {
 	q     []interface{}
